@@ -42,8 +42,9 @@ def run(chk, tier, proof_ok):
                     nruns += 1
                     take(realsearch.partition_findings(c, N, comp, set(cl)))
     # random larger partitions with zeros
-    for _ in range(120 if full else 25):
-        c = plumbing.gen_case(rng, 'part', allow_saveload=False, allow_dynamic=True)
+    for j in range(120 if full else 25):
+        c = plumbing.gen_case(rng, 'part', allow_saveload=False, allow_dynamic=True) if j % 4 else \
+            plumbing.gen_td_case(rng, 'part-td', allow_saveload=False)
         total = rng.randint(5, 40 if full else 16)
         parts, left = [], total
         while left > 0:
